@@ -51,8 +51,8 @@ def main():
         ds = open(os.path.join(wt, 'out/k/demo.sh')).read()
         kdir = os.path.basename(os.path.normpath(src))
         import re
-        ds = re.sub(r'out/[0-9]+/', 'out/k/', ds.replace('out/%s/' % kdir, 'out/k/'))
-        ds = re.sub(r'/tmp/seed-C[0-9]+', wt, ds)
+        ds = re.sub(r'out/[0-9]+\b', 'out/k', ds.replace('out/%s/' % kdir, 'out/k/'))
+        ds = re.sub(r'/tmp/seed[0-9]*-C[0-9]+', wt, ds)
         open(os.path.join(wt, 'out/k/demo.sh'), 'w').write(ds)
         # unmodified build (the demos may use liball.a)
         rc, out = sh('make all > make0.log 2>&1', cwd=wt)
